@@ -328,6 +328,17 @@ func verifC10Consumer(keyed int, chunk int, custom int) {
 	// handed over stays what it was while later input is parsed
 	got := make([]Event, 0, len(want))
 	for i := 0; i < len(want); i++ {
+		if i == len(want)-1 {
+			// everything but the close event has been taken; the channel's goroutines have run as far as they can:
+			// the channel is not declared done (which lets a one-channel-at-a-time endpoint open the next one)
+			// before its close event has been delivered
+			verifRunGoroutines(nil)
+			select {
+			case <-ch.done:
+				verifAssert(false, "C10/C/not-done-before-the-close-event-is-delivered")
+			default:
+			}
+		}
 		got = append(got, <-n.chEvent) // the goroutines run on until an event is handed over
 	}
 	for i := 0; i < len(want); i++ {
